@@ -1,4 +1,5 @@
 import DL.Lemmas.CFExec8
+import DL.Lemmas.CFFrag
 
 /-! Whole programs, completeness on the fragment: everything `Program.reachable` says is reached, is reached by the
 inductive semantics. -/
@@ -26,28 +27,28 @@ theorem Stmt.inner_complete : ∀ (s : Stmt), s.inF = true → InnerFrom s.gette
   | .simple _ _ kids, hf => (Kids.inner_complete kids (by simpa [Stmt.inF] using hf)).congr (fun _ => rfl)
   | .block _ b, hf => (Stmts.inner_complete b (by simpa [Stmt.inF] using hf)).congr (fun _ => rfl)
   | .ifS _ t c none, hf =>
-    have hf' : t.okF = true ∧ c.inF = true := by simpa [Stmt.inF] using hf
+    have hf' := inF_if_none hf
     ((Kids.inner_complete t hf'.1).append (Stmt.inner_complete c hf'.2)).congr (fun _ => rfl)
   | .ifS _ t c (some a), hf =>
-    have hf' : (t.okF = true ∧ c.inF = true) ∧ a.inF = true := by simpa [Stmt.inF] using hf
+    have hf' := inF_if_some hf
     ((Kids.inner_complete t hf'.1.1).append ((Stmt.inner_complete c hf'.1.2).append (Stmt.inner_complete a hf'.2))).congr
       (fun p => by simp [Stmt.inner, Bool.or_assoc])
   | .whileS _ t _ b, hf =>
-    have hf' : t.okF = true ∧ b.inF = true := by simpa [Stmt.inF] using hf
+    have hf' := inF_while hf
     ((Kids.inner_complete t hf'.1).append (Stmt.inner_complete b hf'.2)).congr (fun _ => rfl)
   | .doWhileS _ b t _, hf =>
-    have hf' : t.okF = true ∧ b.inF = true := by simpa [Stmt.inF] using hf
+    have hf' := inF_doWhile hf
     ((Kids.inner_complete t hf'.1).append (Stmt.inner_complete b hf'.2)).congr (fun _ => rfl)
   | .forS _ i u t _ _ b, hf =>
-    have hf' : ((i.okF = true ∧ u.okF = true) ∧ t.okF = true) ∧ b.inF = true := by simpa [Stmt.inF] using hf
+    have hf' := inF_for hf
     (((Kids.inner_complete i hf'.1.1.1).append ((Kids.inner_complete u hf'.1.1.2).append (Kids.inner_complete t hf'.1.2))).append
       (Stmt.inner_complete b hf'.2)).congr (fun p => by simp [Stmt.inner, Bool.or_assoc])
   | .forInOf _ l r b, hf =>
-    have hf' : (l.okF = true ∧ r.okF = true) ∧ b.inF = true := by simpa [Stmt.inF] using hf
+    have hf' := inF_forIn hf
     (((Kids.inner_complete l hf'.1.1).append (Kids.inner_complete r hf'.1.2)).append (Stmt.inner_complete b hf'.2)).congr
       (fun _ => rfl)
   | .switchS _ d cs, hf =>
-    have hf' : d.okF = true ∧ cs.inF = true := by simpa [Stmt.inF] using hf
+    have hf' := inF_switch hf
     ((Kids.inner_complete d hf'.1).append (Cases.inner_complete cs hf'.2)).congr (fun _ => rfl)
   | .tryS _ _ b hh _ ck hfi _ f, hf =>
     have hf' : (((b.inF = true ∧ ck.okFn = true) ∧ f.inF = true) ∧ (hh = true ∨ ck.isNil = true)) ∧ (hfi = true ∨ f.isNil = true) := by
@@ -57,8 +58,8 @@ theorem Stmt.inner_complete : ∀ (s : Stmt), s.inF = true → InnerFrom s.gette
   | .labeled _ _ b, hf => (Stmt.inner_complete b (by simpa [Stmt.inF] using hf)).congr (fun _ => rfl)
   | .brk _ _, _ => InnerFrom.nil (fun _ => rfl)
   | .cont _ _, _ => InnerFrom.nil (fun _ => rfl)
-  | .ret _ a, hf => (Kids.inner_complete a (by simpa [Stmt.inF] using hf)).congr (fun _ => rfl)
-  | .throw _ a, hf => (Kids.inner_complete a (by simpa [Stmt.inF] using hf)).congr (fun _ => rfl)
+  | .ret _ a, hf => (Kids.inner_complete a (inF_ret hf)).congr (fun _ => rfl)
+  | .throw _ a, hf => (Kids.inner_complete a (inF_throw hf)).congr (fun _ => rfl)
 theorem Stmts.inner_complete : ∀ (l : Stmts), l.inF = true → InnerFrom l.getters l.inner
   | .nil, _ => InnerFrom.nil (fun _ => rfl)
   | .cons s r, hf =>
@@ -67,8 +68,8 @@ theorem Stmts.inner_complete : ∀ (l : Stmts), l.inF = true → InnerFrom l.get
 theorem Kid.inner_complete : ∀ (k : Kid), k.okF = true → InnerFrom k.getters k.inner
   | .expr _ ks, hf => (Kids.inner_complete ks (by simpa [Kid.okF] using hf)).congr (fun _ => rfl)
   | .fnScope q ks, hf => (Kids.inner_complete_fn q ks (by simpa [Kid.okF] using hf)).congr (fun _ => rfl)
-  | .block _ _, hf => by simp [Kid.okF] at hf
-  | .stmt _, hf => by simp [Kid.okF] at hf
+  | .block _ b, hf => (Stmts.inner_complete b (by simpa [Kid.okF] using hf)).congr (fun _ => rfl)
+  | .stmt s, hf => (Stmt.inner_complete s (by simpa [Kid.okF] using hf)).congr (fun _ => rfl)
 theorem Kids.inner_complete : ∀ (ks : Kids), ks.okF = true → InnerFrom ks.getters ks.inner
   | .nil, _ => InnerFrom.nil (fun _ => rfl)
   | .cons k r, hf =>
@@ -89,8 +90,10 @@ theorem Kids.inner_complete_fn (q : Nat) : ∀ (ks : Kids), ks.okFn = true →
       exact ⟨g, by simp [Kids.getters, Kid.getters, hg], hr⟩
   | .cons (.block _ _) (.cons _ _), hf => by simp [Kids.okFn, Kids.isNil] at hf
   | .cons (.expr e ks') r, hf => by
-    have hf' : ks'.okF = true ∧ r.okFn = true := by simpa [Kids.okFn] using hf
-    have h1 := Kids.inner_complete ks' hf'.1
+    have hf' := okFn_expr hf
+    have hkn : (Kid.expr e ks').compl.n = true := by
+      rw [Kid.compl_pure (.expr e ks') (by simpa [Kid.pure] using hf'.1.2)]
+    have h1 := Kids.inner_complete ks' hf'.1.1
     have h2 := Kids.inner_complete_fn q r hf'.2
     refine ((h1.append h2).mono ?_).congr ?_
     · intro g hg; simp only [Kids.fnBodies, Kids.getters, Kid.getters, List.mem_append] at hg ⊢
@@ -99,8 +102,8 @@ theorem Kids.inner_complete_fn (q : Nat) : ∀ (ks : Kids), ks.okFn = true →
       · exact Or.inl h
       · exact Or.inr (Or.inr h)
     · intro p
-      simp only [Kids.entryReach, Kids.flowReach, Kid.flowReach, Kids.flowReach_okF ks' p hf'.1, Kids.inner, Kid.inner,
-        Bool.false_or]
+      simp only [Kids.entryReach, Kids.flowReach, Kid.flowReach, Kids.flowReach_pure ks' p hf'.1.2, hkn, Kids.inner, Kid.inner,
+        Bool.false_or, Bool.true_and]
       cases ks'.inner p <;> cases r.entryReach p <;> cases r.flowReach p <;> cases r.inner p <;> rfl
   | .cons (.fnScope q' ks') r, hf => by
     have hf' : ks'.okFn = true ∧ r.okFn = true := by simpa [Kids.okFn] using hf
@@ -114,7 +117,8 @@ theorem Kids.inner_complete_fn (q : Nat) : ∀ (ks : Kids), ks.okFn = true →
       · exact Or.inl h
       · exact Or.inr (Or.inr h)
     · intro p
-      simp only [Kids.entryReach, Kids.flowReach, Kid.flowReach, Kids.inner, Kid.inner, Bool.false_or]
+      simp only [Kids.entryReach, Kids.flowReach, Kid.flowReach, Kids.inner, Kid.inner, Bool.false_or,
+        show (Kid.fnScope q' ks').compl.n = true by simp [Kid.compl], Bool.true_and]
       cases ks'.entryReach p <;> cases ks'.flowReach p <;> cases ks'.inner p <;> cases r.entryReach p <;>
         cases r.flowReach p <;> cases r.inner p <;> rfl
   | .cons (.stmt _) _, hf => by simp [Kids.okFn] at hf
@@ -128,8 +132,8 @@ theorem Kids.inner_complete_catch : ∀ (ks : Kids), ks.okFn = true → InnerFro
     · intro p; simp [Kids.inner, Kid.inner]
   | .cons (.block _ _) (.cons _ _), hf => by simp [Kids.okFn, Kids.isNil] at hf
   | .cons (.expr e ks') r, hf => by
-    have hf' : ks'.okF = true ∧ r.okFn = true := by simpa [Kids.okFn] using hf
-    exact ((Kids.inner_complete ks' hf'.1).append (Kids.inner_complete_catch r hf'.2)).congr (fun _ => rfl)
+    have hf' := okFn_expr hf
+    exact ((Kids.inner_complete ks' hf'.1.1).append (Kids.inner_complete_catch r hf'.2)).congr (fun _ => rfl)
   | .cons (.fnScope q' ks') r, hf => by
     have hf' : ks'.okFn = true ∧ r.okFn = true := by simpa [Kids.okFn] using hf
     exact ((Kids.inner_complete_fn q' ks' hf'.1).append (Kids.inner_complete_catch r hf'.2)).congr (fun _ => rfl)
@@ -137,7 +141,7 @@ theorem Kids.inner_complete_catch : ∀ (ks : Kids), ks.okFn = true → InnerFro
 theorem Cases.inner_complete : ∀ (cs : Cases), cs.inF = true → InnerFrom cs.getters cs.inner
   | .nil, _ => InnerFrom.nil (fun _ => rfl)
   | .cons _ _ t b r, hf =>
-    have hf' : (t.okF = true ∧ b.inF = true) ∧ r.inF = true := by simpa [Cases.inF] using hf
+    have hf' := inF_case hf
     ((Kids.inner_complete t hf'.1.1).append ((Stmts.inner_complete b hf'.1.2).append (Cases.inner_complete r hf'.2))).congr
       (fun p => by simp [Cases.inner, Bool.or_assoc])
 end
@@ -151,29 +155,29 @@ theorem itemsInner_complete : ∀ (items : List Item), itemsInF items = true →
     have hf' : k.okF = true ∧ itemsInF r = true := by simpa [itemsInF, Item.inF] using hf
     ((Kids.inner_complete k hf'.1).append (itemsInner_complete r hf'.2)).congr (fun _ => rfl)
 
-theorem itemsReach_complete : ∀ (items : List Item) (p : Nat), itemsInF items = true → itemsReach items p = true →
-    ReachesItems items p
-  | [], p, _, h => by simp [itemsReach] at h
-  | .stmt s :: r, p, hf, h => by
-    have hf' : s.inF = true ∧ itemsInF r = true := by simpa [itemsInF, Item.inF] using hf
+theorem itemsReach_complete : ∀ (items : List Item) (p : Nat), itemsReach items p = true → ReachesItems items p
+  | [], p, h => by simp [itemsReach] at h
+  | .stmt s :: r, p, h => by
     simp only [itemsReach, Bool.or_eq_true, Bool.and_eq_true] at h
     rcases h with h | ⟨hn, h⟩
-    · exact .here (Stmt.reach_complete s p hf'.1 h)
-    · exact .next (Stmt.complete s [] .normal hn) (itemsReach_complete r p hf'.2 h)
-  | .decl k :: r, p, hf, h => by
-    have hf' : k.okF = true ∧ itemsInF r = true := by simpa [itemsInF, Item.inF] using hf
-    simp only [itemsReach, Kids.flowReach_okF k p hf'.1, Bool.false_or] at h
-    exact .skipDecl (itemsReach_complete r p hf'.2 h)
+    · exact .here (Stmt.reach_complete s p h)
+    · exact .next (Stmt.complete s [] .normal hn) (itemsReach_complete r p h)
+  | .decl k :: r, p, h => by
+    simp only [itemsReach, Bool.or_eq_true, Bool.and_eq_true] at h
+    rcases h with h | ⟨hn, h⟩
+    · exact .decl (Kids.flowReach_complete k p h)
+    · exact .skipDecl (Kids.complete k .normal hn) (itemsReach_complete r p h)
 
-/-- **completeness of `Program.reachable`** on the fragment -/
+/-- **completeness of `Program.reachable`** on the fragment (the fragment is only needed for the entries of functions:
+parameters are pure there) -/
 theorem Program.Reaches.complete (prog : Program) (hf : itemsInF prog.items = true) (p : Nat)
     (h : prog.reachable p = true) : prog.Reaches p := by
   unfold Program.reachable at h
   rcases (Bool.or_eq_true _ _).mp h with h | h
-  · exact Or.inl (itemsReach_complete prog.items p hf h)
-  · obtain ⟨g, hg, hgf, hr⟩ := itemsInner_complete prog.items hf p h
+  · exact Or.inl (itemsReach_complete prog.items p h)
+  · obtain ⟨g, hg, _, hr⟩ := itemsInner_complete prog.items hf p h
     refine Or.inr ⟨g, hg, ?_⟩
     simp only [Getter.reach, Bool.or_eq_true, beq_iff_eq] at hr
-    exact hr.imp id (fun h => Stmts.reach_complete g.body p hgf h)
+    exact hr.imp id (fun h => Stmts.reach_complete g.body p h)
 
 end DL.CF
